@@ -30,7 +30,7 @@ ASSUMPTIONS = [
     "cos/sin uninterpreted in the PSK labelling proof (only congruence is used); floats ideal-real there",
 ]
 TRUSTED_BASE = ["numpy fancy indexing / arange / tile / reshape (executed by the real numpy on object arrays)"]
-BOUNDS = {"psk_orders_quick": "2..2^8 deductive, 2..2^12 enumerated", "psk_orders_thorough": "2..2^12",
+BOUNDS = {"psk_orders_quick": "2..2^8 deductive, 2..2^12 enumerated", "psk_orders_thorough": "2..2^10 deductive, 2..2^12 enumerated",
           "qam_orders": [4, 16, 64, 256, 1024, 4096]}
 
 B2G = "pyphysim.util.conversion:binary2gray"
@@ -228,7 +228,7 @@ def _psk_labelling_goals(c, it, M, obj_symbols, phi):
 
 
 @obligation("psk/init_gray_labelled", params=[{"M": 2**k, "_tiers": ("quick", "thorough") if k <= 8 else ("thorough",)}
-                                              for k in range(1, 13)], timeout=900,
+                                              for k in range(1, 11)], timeout=900,
             desc="PSK(M, phi) for symbolic phi: the symbol labelled binary2gray(p) is the p-th point on the circle "
                  "=> angular neighbours (incl. wrap) differ in exactly one bit")
 def ob_psk_init(M):
